@@ -64,14 +64,14 @@ PLANS = {
   'deadline': {'quick': 240, 'thorough': 3000}, 'assumptions': A_COMMON + ['history bytes at index >= w are not part of the canonical state (never read for i < w by construction of the API)'],
  },
  'C06': {
-  'level': 'model_checking', 'steps': [e1('explore', 112)],
+  'level': 'model_checking', 'steps': [e1('explore', 112), e1('jobs', 23)],
   'eval_stats': ['transitions'], 'distinct_key': 'abstract_states', 'state_stats': ['states'], 'transition_stats': ['transitions'],
   'rule': "explicit-state search on the real manager and contexts of every algorithm x family (28 instances x 4 policies): a state is the byte image of manager + K contexts (snapshot/restore by memcpy) plus the reference model; every enabled symbol (flush, valid submits FIRST/UPDATE/LAST/ENTIRE with 7 lengths on fresh/idle/completed contexts, 10 kinds of rejected submit) is a deviation from the driving policy; bounds d=0,1,2.. iterated; invariants I1-I6 evaluated after every transition; distinct = abstract (occupancy, status multiset) states reached",
   'bound': {'quick': 'deviations d<=2 for families with <=4 lanes, d<=1 otherwise', 'thorough': 'd<=3 for <=4 lanes, d<=2 otherwise (deadline-cut bounds are reported)'},
   'deadline': {'quick': 200, 'thorough': 2700}, 'assumptions': A_E1,
  },
  'C01': {
-  'level': 'model_checking', 'steps': [e1('explore', 112, extra_q=['--d4=1']), e1('seg', 112)],
+  'level': 'model_checking', 'steps': [e1('explore', 112, extra_q=['--d4=1']), e1('seg', 112), e1('jobs', 23)],
   'eval_stats': ['transitions'], 'distinct_key': None, 'state_stats': ['states'], 'transition_stats': ['transitions'],
   'rule': "same state space as C06 (digest of every context handed back complete compared with the standard hash of everything submitted since FIRST, incl. context reuse and mid-stream restart) plus, per family, all segmentations (l1,l2) in [0,2B+1]^2 as FIRST/LAST, FIRST/UPDATE/LAST(0) and ENTIRE under four lane occupancies (alone, 1, lanes-2, lanes-1 long background jobs in flight); digests compared with own FIPS 180-4 / RFC 1321 / GB/T 32905 references",
   'bound': {'quick': 'explore d<=1; seg (l1,l2) in [0,2B+1]^2', 'thorough': 'explore d<=3 (<=4 lanes) / d<=2; seg additionally a third piece'},
@@ -94,8 +94,8 @@ PLANS = {
  },
  'C08': {
   'level': 'fault_enumeration',
-  'steps': [e3('gcm'), e3('xts', 8, 16), e3('cbc', 4, 8), e3('keyexp', 2, 4), e2('mh1', 8, 16), e2('mh256', 8, 16), e2('mur', 8, 16), e2('roll', 16, 16), e2('gcms', 16, 16),
-            e1('seg', 112), e1('explore', 112, ['--d4=1', '--d8=1', '--d16=1'])],
+  'steps': [e3('gcm'), e3('xts', 8, 16), e3('cbc', 4, 8), e3('keyexp', 2, 4), e2('mh1', 8, 16), e2('mh256', 8, 16), e2('mur', 8, 16), e2('roll', 16, 16), e2('gcms', 16, 16), e2('blocks', 1, 1),
+            e1('seg', 112), e1('jobs', 23), e1('explore', 112, ['--d4=1', '--d8=1', '--d16=1'])],
   'eval_stats': ['calls_gcm', 'calls_xts', 'calls_cbc', 'calls_keyexp', 'streams', 'transitions'], 'distinct_key': None,
   'rule': "guard-page fault enumeration: every call of the E3/E2/E1 sweeps is made with each input and output buffer placed end-flush against a PROT_NONE page and, in a second pass, start-flush right after one; inputs (data, AAD, 12-byte IV, tweak, keys, schedules, key data, rolling window) live in read-only mappings, outputs and in/out objects (context, manager, key data at exact sizeof) are surrounded by canary bytes; a fault, a damaged canary or a write to an input is a violation attributed to (entry, object, direction); zero-length calls included wherever 0 is in the documented domain (CBC through the public and legacy entry points bound to each family)",
   'bound': {'quick': 'GCM len<=600+windows, XTS len<=1100, CBC N<=70, mh l1<=1040, rolling w+70, GCM streaming sum<=40, hash (l1,l2) in [0,2B+1]^2 x 4 occupancies + explore d<=1', 'thorough': 'the thorough grids of the functional sweeps'},
@@ -103,8 +103,8 @@ PLANS = {
  },
  'C19': {
   'level': 'exploration',
-  'steps': [e3('gcm'), e3('xts', 8, 16), e3('cbc', 4, 8), e3('keyexp', 2, 4), e2('mh1', 8, 16), e2('mh256', 8, 16), e2('mur', 8, 16), e2('roll', 16, 16), e2('gcms', 16, 16),
-            e1('seg', 112), e1('explore', 112, ['--d4=1', '--d8=1', '--d16=1']), e1('explore', 112, ['--entry=public', '--d4=1']),
+  'steps': [e3('gcm'), e3('xts', 8, 16), e3('cbc', 4, 8), e3('keyexp', 2, 4), e2('mh1', 8, 16), e2('mh256', 8, 16), e2('mur', 8, 16), e2('roll', 16, 16), e2('gcms', 16, 16), e2('blocks', 1, 1),
+            e1('seg', 112), e1('jobs', 23), e1('explore', 112, ['--d4=1', '--d8=1', '--d16=1']), e1('explore', 112, ['--entry=public', '--d4=1']),
             {'engine': 'e4_api', 'variant': 'V', 'args': ['--mode=lattice'], 'shards': 8}, {'engine': 'e6_dispatch', 'variant': 'V', 'args': [], 'shards': 16}],
   'eval_stats': ['library_calls'], 'distinct_key': 'functions_called',
   'rule': "every library call of every engine goes through an assembly trampoline that loads sentinels into rbx, rbp, r12-r15, records rsp, MXCSR, x87 CW, clears DF, lays a 256-byte canary zone above the outgoing stack arguments, poisons caller-saved registers/flags, and after return compares all of it bit for bit (MXCSR: control bits only); the calls are those of the functional sweeps (every length class / tail / main loop / lanes full or not / flush with 0..L live lanes / rejected submits), on public, legacy and family entry points, the argument-lattice error/early returns of E4 and all 64 dispatch resolvers (E6, every CPU configuration); distinct = distinct entry points called",
